@@ -4,7 +4,7 @@
     is counted, what the counts decide, and — by the accounting invariant of Inv/Refs.v, proved
     for every reachable state — that an actor some strong handle (or the registry) points to is
     always counted. *)
-From Hannibal Require Import Model.Sys Inv.C05 Inv.C04 Inv.Refs Inv.Refs2 Inv.C05b Chk.C05.
+From Hannibal Require Import Model.Sys Inv.C05 Inv.C04 Inv.Refs Inv.Refs2 Inv.C05b Chk.C05 Inv.Reach Inv.C10.
 
 (** every new handle of a strong kind is counted on the waiting closure, a weak one on nothing *)
 Theorem C05_strong_counted_weak_not :
@@ -117,3 +117,17 @@ Example C05_discipline_examples :
   /\ chk_C05 [EvSpawn 0 c; EvHandle 0 0 KAddr; EvHandle 1 0 KWAddr; EvHandle 2 0 KAddr; EvDrop 0; EvDrop 2; EvUpg 1 false] = true
   /\ chk_C05 [EvSpawn 0 c; EvHandle 0 0 KAddr; EvHandle 1 0 KWAddr; EvHandle 2 0 KAddr; EvDrop 0; EvDrop 2; EvUpg 1 true] = false.
 Proof. vm_compute. repeat split. Qed.
+
+(** * Last drop drains, then stops - at the end of every run
+
+    A run ends (the executor has nothing to run and nobody sleeps) only in a state in which every
+    actor that has not terminated is either inside user code that is waiting for something, or
+    idle with an *empty* mailbox and *still referenced*: an accepted message is never left
+    unhandled by a live actor, and an actor nobody references any more has gone on to terminate. *)
+Theorem C05_nothing_left_undone_when_the_run_ends :
+  forall tr s s', run init tr = Acc s -> step s EvQuiesce = Acc s' ->
+  forall a x, actors s a = Some x -> a_phase x <> PhDone ->
+    (a_phase x = PhIdle -> a_queue x = [] /\ closed x = false)
+    /\ (a_phase x = PhIdle \/ in_user_code (a_phase x) = true).
+Proof. intros tr s s' H. apply quiesce_actors. exact (listed_run _ _ _ listed_init H). Qed.
+Print Assumptions C05_nothing_left_undone_when_the_run_ends.
